@@ -396,6 +396,13 @@ func pubFromSPKI(alg AlgID, bits []byte) (*PubKey, error) {
 		}
 		curve := cf()
 		bl := (curve.Params().BitSize + 7) / 8
+		if len(bits) == 1+bl && (bits[0] == 2 || bits[0] == 3) && isNISTCurve(coid) {
+			x, y := elliptic.UnmarshalCompressed(curve, bits)
+			if x == nil {
+				return nil, fmt.Errorf("compressed ec point does not decode on curve %s", coid)
+			}
+			return &PubKey{Kind: "ec", Curve: coid, EC: &ecdsa.PublicKey{Curve: curve, X: x, Y: y}}, nil
+		}
 		if len(bits) != 1+2*bl || bits[0] != 4 {
 			return nil, fmt.Errorf("ec point not uncompressed/len %d for curve %s", len(bits), coid)
 		}
